@@ -4,6 +4,8 @@ import EmsModel.Core.GeomProto
 `hits   <rings> <pt>`                          → sorted positions whose polygon intersects the point (exact test)
 `lookup <grids> <default> <rings> <pt> <hits|auto>` → `n kind:j,i ring` | `-`
   (`hits`: the spatial-index result in the order it was reported, `auto`: exact hit set)
+`cf1dhits lon=… lat=… [lonb=… latb=…] pt=<pt>` → the hits on a CF 1-D grid from the bounds alone (`Ems.cf1dHits`,
+  the interval-containment specification proved equal to the exact hit set: `C04.cf1d_hits_eq`)
 plus the geometry ops of `Core/GeomProto.lean` (`pip`, `valid`, `polys`). -/
 open Ems Ems.Proto Ems.GeomProto
 
@@ -40,6 +42,21 @@ def step (line : String) : String :=
             | none => "ERR"
           s!"{item.linear} {nat} {showOptRing item.polygon}"
     | _, _, _ => "BAD"
+  | "cf1dhits" :: args =>
+    let r : Option (List Nat) := do
+      let lon ← parseRats? (← kv args "lon")
+      let lat ← parseRats? (← kv args "lat")
+      let lonb ← match kv args "lonb" with
+        | none | some "-" => midBounds lon
+        | some s => parsePairs? s
+      let latb ← match kv args "latb" with
+        | none | some "-" => midBounds lat
+        | some s => parsePairs? s
+      let q ← parsePt? (← kv args "pt")
+      some (cf1dHits lonb latb q)
+    match r with
+    | some hs => showNatList hs
+    | none => "BAD"
   | _ => (Ems.GeomProto.step? ws).getD "BAD"
 
 def main : IO Unit := loop step
